@@ -40,6 +40,12 @@ func init() {
 	phw.staleBias = true // small alphabet: n-grams recur inside the trailing literals
 	phw.stream = 300
 	suites["p-hugewin"] = pSuite(phw, []string{"p.parse.ntl.truncated"})
+	// accepted but odd configurations (several fields at once zero, at a bound of Verify, or huge),
+	// each driven through an ordinary short history: configuration-only panics and spurious errors
+	pwc := profGeneral
+	pwc.badCfgPct = 75
+	pwc.maxOps = 25
+	suites["p-wildcfg"] = pSuite(pwc, []string{"p.parse.matches"})
 	suites["p-nil"] = pSuite(pn, []string{"p.parsenil.data"})
 	suites["p-nil-GSAP"] = pSuite(pn.withKinds("GSAP"), []string{"p.parsenil.data"})
 	pv := profGeneral
